@@ -1152,6 +1152,44 @@ def report_partition(a):
                 parts.append("false")
         good = "(and " + " ".join(parts) + ")"
         bad.append(f"(and {pc_term(p.pc)} (not {good}))")
+    # ---- one bucket per NAME (a rule name may be defined several times) -------------------------------------------
+    bad_dup, unmodelled = [], False
+    for p in ex.paths:
+        r = p.ret
+        okv = r[3].get("Ok") if (p.outcome == "return" and r and r[0] == "enum" and r[1] == "Result") else None
+        if okv is None or okv[0] != "struct":
+            continue
+        comp, na = okv[2].get("compliant"), okv[2].get("not_applicable")
+        # any later clean-up of the sets (retain / remove / difference ...) is not modelled: then this obligation is not decided
+        if any(e[0] == "call" and e[1] in ("retain", "remove", "difference", "take", "extract_if", "drain") for e in p.events):
+            unmodelled = True
+        its = [(k, el, tag) for k, el, tag, _i in iterations(ex, p) if f"(= {tag} 1)" in p.pc]
+        if len(its) < 2:
+            continue
+        recs = []
+        for k, el, tag in its[:2]:
+            isrule, ns = rule_record(el, "RuleCheck")
+            st = field(ex, ns, NS.index("status"), "rules::Status")
+            nm = field(ex, ns, NS.index("name"), "&str")
+            key = ("nameid", nm[1] if nm[0] == "opaque" else str(nm))
+            if key not in ex.proj:
+                ex.proj[key] = ex.fresh("Int", "nameid")
+            recs.append((isrule, st[2], ex.proj[key]))
+        (r0, s0, n0), (r1, s1, n1) = recs
+        # per record: PASS -> compliant, SKIP -> not_applicable (decided above), FAIL -> listed in not_compliant (rule-listing
+        # obligation): two records of ONE name with different statuses put that name into two buckets
+        bad_dup.append(f"(and {pc_term(p.pc)} {r0} {r1} (= {n0} {n1}) (not (= {s0} {s1})))")
+    if unmodelled:
+        a.ob.items.append({"obligation": "simplified_json_from_root/one-bucket-per-name", "describe": "the sets are post-processed by calls "
+                           "the executor does not model: not decided", "verdicts": {}, "status": "inconclusive", "model": None})
+    else:
+        cd = a.discharge("simplified_json_from_root/one-bucket-per-name", ex, bad_dup,
+                         "report of one evaluation with two rule records of the SAME name (a rule defined twice) whose statuses differ: the "
+                         "name is listed in exactly one of compliant / not_applicable / not_compliant", witness=False)
+        if cd:
+            cd["replay"] = replay_duplicate_names(a)
+            cd["reproduced"] = cd["replay"].get("reproduced", False)
+            a.candidates.append(cd)
     c = a.discharge("simplified_json_from_root/partition", ex, bad,
                     f"report of one evaluation, <= 2 rule records ({nins} set insertions over all paths): a rule's name is put into "
                     "`compliant` iff its RuleCheck status is PASS, into `not_applicable` iff SKIP, into neither for FAIL; the two sets are "
@@ -2043,6 +2081,28 @@ def replay_only_fail_listed(a):
                 out.append({"case": label, "rules_file": rules, "exit": rc, "listed_checks": checks})
     real = [o for o in out if "problem" not in o]
     return {"reproduced": bool(real), "mismatches": out[:3], "data": data, "tried": tried}
+
+
+def replay_duplicate_names(a):
+    """a rule name defined twice with different statuses: in how many of the three lists does the name appear?"""
+    exe = a.cli()
+    if not exe:
+        return {"reproduced": False, "note": "native build failed"}
+    defs = {"PASS": "{\n  a == 1\n}", "FAIL": "{\n  a == 3\n}", "SKIP": "when a == 2 {\n  a == 1\n}"}
+    out, tried = [], []
+    for s0, s1 in (("SKIP", "PASS"), ("PASS", "SKIP"), ("SKIP", "FAIL"), ("FAIL", "SKIP"), ("PASS", "FAIL"), ("FAIL", "PASS")):
+        rules = f"rule r {defs[s0]}\nrule r {defs[s1]}\n"
+        rc, rep, err = a.run_structured(exe, rules, ['{"a":\n 1}\n'])
+        if not (rep and isinstance(rep, list) and rep):
+            tried.append({"definitions": [s0, s1], "problem": "no report", "exit": rc})
+            continue
+        r = rep[0]
+        where = [b for b, names in (("compliant", r.get("compliant", [])), ("not_applicable", r.get("not_applicable", [])),
+                                    ("not_compliant", [x["Rule"]["name"] for x in r.get("not_compliant", []) if "Rule" in x])) if "r" in names]
+        tried.append({"definitions": [s0, s1], "listed_in": where})
+        if len(where) != 1:
+            out.append({"rules_file": rules, "definitions": [s0, s1], "listed_in": where})
+    return {"reproduced": bool(out), "mismatches": out[:3], "tried": tried, "data": '{"a": 1}'}
 
 
 def replay_fail_rule_listed(a):
